@@ -47,10 +47,14 @@ func runC04(p *core.Program, r *core.Report) {
 	r.Rule("C04.prefix", "readers of agreeing codec pairs consume everything the writer emitted, so strict prefixes fail in ReadBytes", 100)
 	r.Rule("C04.alloc", "allocations sized by a wide decoded count are preceded by a rejecting bound check", 10)
 	r.Rule("C04.terminate", "loops bounded by a decoded count read from the stream on every path of their body", 54)
+	r.Rule("C04.chokepoint", "every byte a decoder obtains goes through ReadBytes (the one place with the short-read check): nothing else touches the input buffer, connection or offset", 3)
+	r.Rule("C04.no-swallow", "no decoder recovers from a decoding panic and carries on (a truncated or corrupted record is never skipped silently)", 1)
 	r.Rule("C04.limit", "size-limited reads compare the announced length with the caller's limit before any byte of the payload is read or allocated", 1)
 	r.Rule("C04.unknown-tag", "unknown type codes end in a (recoverable) panic, never in a fabricated object", 4)
 
 	c04ShortRead(p, r)
+	c01Chokepoint(p, r, "C04.chokepoint")
+	c04NoSwallow(p, r)
 	c04Limit(p, r)
 	c04Prefix(p, r)
 	c04AllocAndLoops(p, r)
@@ -160,6 +164,73 @@ func runC04(p *core.Program, r *core.Report) {
 // reads: on every path, each variable-length read (ReadBytes/ReadIntBytes/ReadBlob/...) is preceded by
 // a comparison that mentions the limit parameter and whose other outcome panics. Checking the length of
 // what was already read is too late for a socket-backed input (the allocation has happened).
+// c04NoSwallow: a function of a decoder package that reads from a DataInputX (directly or by handing
+// it to a decoder) must not contain a deferred recover() that lets it return normally: that turns
+// "truncated input panics" into "truncated input is skipped", and a loop over a corrupted count then
+// spins through the whole count.
+func c04NoSwallow(p *core.Program, r *core.Report) {
+	x := wire.NewExtractor(p)
+	decoderPkgs := map[string]bool{"io": true, "lang/value": true, "lang/pack": true, "lang/pack/udp": true, "lang/step": true, "lang/service": true, "util/hll": true, "util/list": true, "util/hmap": true}
+	n := 0
+	for _, fi := range p.Funcs {
+		if fi.Decl.Body == nil || !decoderPkgs[core.RelPkg(fi.Pkg.PkgPath)] || strings.Contains(fi.Obj.Name(), "zzCanary") || strings.HasPrefix(fi.Obj.Name(), "zzSpec") {
+			continue
+		}
+		info := fi.Pkg.TypesInfo
+		reads := false
+		ast.Inspect(fi.Decl.Body, func(m ast.Node) bool {
+			if id, ok := m.(*ast.Ident); ok {
+				if o := info.ObjectOf(id); o != nil && x.IsIn(o.Type()) {
+					reads = true
+				}
+			}
+			return true
+		})
+		if !reads {
+			continue
+		}
+		n++
+		swallow := ""
+		ast.Inspect(fi.Decl.Body, func(m ast.Node) bool {
+			ds, ok := m.(*ast.DeferStmt)
+			if !ok {
+				return true
+			}
+			fl, ok := ds.Call.Fun.(*ast.FuncLit)
+			if !ok {
+				return true
+			}
+			recovers, repanics := false, false
+			ast.Inspect(fl.Body, func(k ast.Node) bool {
+				if call, ok := k.(*ast.CallExpr); ok {
+					if id, ok := call.Fun.(*ast.Ident); ok {
+						if id.Name == "recover" {
+							recovers = true
+						}
+						if id.Name == "panic" {
+							repanics = true
+						}
+					}
+				}
+				return true
+			})
+			if recovers && !repanics {
+				swallow = p.Pos(ds.Pos())
+			}
+			return true
+		})
+		c := core.FuncName(fi.Obj)
+		if swallow != "" {
+			r.Viol("C04.no-swallow", c, swallow, "a deferred recover() lets this decoder return normally after a decoding panic: truncated or corrupted input is silently skipped instead of failing (and a loop over a corrupted count keeps spinning)")
+		} else if n <= 400 {
+			r.OK("C04.no-swallow", c, p.Pos(fi.Decl.Pos()), "decoding panics propagate")
+		}
+	}
+	if n == 0 {
+		r.Undec("C04.no-swallow", "decoder packages", "-", "no decoder found")
+	}
+}
+
 func c04Limit(p *core.Program, r *core.Report) {
 	n := 0
 	for _, fi := range p.MethodsOf(namedIn(p, "io", "DataInputX")) {
